@@ -6,7 +6,7 @@ import Mimium.Model.Unify
 `Len σ args a b` — what the real `unify_types` (`args = false`) / `unify_types_args` (`args = true`) establish when they answer
 `Ok(_)`: equality modulo the bindings of `σ` AND modulo the clauses below, one per arm of the two `match` tables that answers
 `Ok` without establishing equality.  Every clause that `SEq` does not have is a place where the type checker accepts two different
-types; the clause names are referred to by design.d/C03.md (findings K1, K4, K8, K9, K10, K11).
+types; the clause names are referred to by design.d/C03.md (findings K1, K4, K8, K9, K10, K16).
 -/
 namespace Mimium.Unify
 open Mimium.Occurs (parent)
